@@ -38,7 +38,7 @@ ASSUMPTIONS = [
     "verovio is not installed: the lxml branch of the MEI reader is the one that runs",
 ]
 COMPONENTS = {"real": ["partitura.io.importkern", "partitura.io.exportkern", "partitura.io.importmei", "partitura.io.exportmei", "partitura.io.load_score", "numpy loadtxt/genfromtxt/savetxt", "lxml"], "stub": ["raw file layer (SimFS)", "HTTP client (fake urlopen)", "independent kern and MEI encoders (model/ref_kern.py, model/ref_mei.py)"]}
-PROBES = ("kern_spine_split_fallback_reader", "load_score_as_part", "kern_force_same_part", "kern_two_spines_on_one_staff", "kern_spine_split_with_notes", "kern_same_part", "mei_dur_ppq", "kern_multi_spine", "kern_ties", "kern_tuplets", "kern_grace", "mei_attr_defs", "mei_child_defs", "mei_no_ppq", "mei_layers", "mei_tuplets", "mei_meter_change", "mei_key_change_with_meter_change", "upper_case_extension", "url_route", "url_short_reads", "read_fault", "write_fault", "export_roundtrip_checked", "rich_export_strict_kern", "rich_export_strict_mei", "rich_export_strict_tuplets")
+PROBES = ("kern_spine_split_fallback_reader", "load_score_as_part", "kern_force_same_part", "kern_two_spines_on_one_staff", "kern_spine_split_with_notes", "kern_same_part", "mei_dur_ppq", "mei_dur_ppq_only", "kern_multi_spine", "kern_ties", "kern_tuplets", "kern_grace", "mei_attr_defs", "mei_child_defs", "mei_no_ppq", "mei_layers", "mei_tuplets", "mei_meter_change", "mei_key_change_with_meter_change", "upper_case_extension", "url_route", "url_short_reads", "read_fault", "write_fault", "export_roundtrip_checked", "rich_export_strict_kern", "rich_export_strict_mei", "rich_export_strict_tuplets")
 
 
 # ----------------------------------------------------------------------------
@@ -154,6 +154,9 @@ def loaded_by_staff(score):
         q = int(part._quarter_durations[0])
         if len(part._quarter_durations) != 1:
             q = None
+        for qd in part._quarter_durations:
+            if not isinstance(qd, (int, np.integer)):
+                nonint.append(("divisions", qd, type(qd).__name__))
         for n in part.iter_all(S.Note, include_subclasses=True):
             if n.tie_prev is not None:
                 continue
@@ -297,6 +300,8 @@ def run_in(res, fs, asc, kn, fmt, path, faults, shape):
         res.probe("mei_attr_defs" if kn["style"]["attr_defs"] else "mei_child_defs")
         if not kn["style"]["ppq"]:
             res.probe("mei_no_ppq")
+            if kn["style"].get("durppq"):
+                res.probe("mei_dur_ppq_only")
         elif kn["style"].get("durppq"):
             res.probe("mei_dur_ppq")
         if shape["tuplets"]:
@@ -337,8 +342,12 @@ def run_in(res, fs, asc, kn, fmt, path, faults, shape):
         res.violation("N0-load-raised", "load", "%s file of the supported subset could not be loaded over route %s: %s: %s" % (fmt, kn["route"], type(err).__name__, err), site=site[-1].name if site else type(err).__name__)
         return
     got, info = loaded_by_staff(score)
-    if info.pop("_nonint"):
-        res.probe("float_time_points")
+    nonint = info.pop("_nonint")
+    if nonint:
+        # positions and divisions are whole numbers in every part (parts with float divisions cannot be merged, float
+        # time points cannot be written again)
+        res.violation("N5-grid", "load", "%s: loaded part has non-integer time values: %s" % (fmt, nonint[:3]), site="divisions" if nonint[0][0] == "divisions" else "time-points")
+        return
     bad = spelled_pitch_mismatch(score)
     if bad:
         res.violation("N4-pitch", "load", "%s: a loaded note spelled %s%+d in octave %d has MIDI pitch %d, its spelling denotes %d" % ((fmt,) + bad), site="spelling:" + ("wrap" if (bad[0], bad[1] > 0) in (("B", True), ("C", False)) else "other"))
